@@ -231,6 +231,11 @@ def replay(run, payload):
             ents.append({'td': e[1].split('/info/')[0], 'name': e[1].split('/info/')[1][:-10],
                          'dates': [l[13:] for l in e[2].split('\n') if l.startswith('DeletionDate=')]})
     a = [x for x in scn['steps'][0]['argv'] if x.isdigit()]
+    # the decision monitor (Coq) over the recorded trace, as in the main run
+    envd = (scn['steps'][0].get('env') or {}).get('TRASH_DATE')
+    param = ('N' if not a else tok_z(int(a[0]))) + '|' + ('N' if not envd else tok_s(envd))
+    engine.run_monitors(run, 'decision-monitor', [('decision', param, o, {'scenario': scn})], 'the decision monitor (Coq, C10) rejects the '
+                        'implementation trace: a path was removed that is neither an old entry nor an orphan', 'unapproved-removal', silent=True)
     jm = scn.get('judge_meta')
     if jm:
         judge(run, scn, {'days': jm['days'], 'ents': jm['ents'], 'orphans': [tuple(x) for x in jm['orphans']], 'micro': jm.get('micro', 0),
